@@ -1404,6 +1404,75 @@ Proof.
     clear Halive Halive0. remember LPollReturn as lr eqn:Elr. open_step E5; try discriminate Elr. cbn. congruence.
 Qed.
 
+(* Every request is started at most once and answered at most once (no duplicate execution, no duplicate response),
+   on every schedule: the finishing step needs rank 5 and leaves rank 6, the starting step needs rank 4 and leaves
+   rank 5, and ranks never go down. *)
+Definition is_finish (c : cid) (r : rid) (l : label) : bool :=
+  match l with LFinish c' r' => (c' =? c) && (r' =? r) | _ => false end.
+Definition is_start (c : cid) (r : rid) (l : label) : bool :=
+  match l with LStart c' r' => (c' =? c) && (r' =? r) | _ => false end.
+Definition count_lab (f : label -> bool) (ls : list label) : nat := length (filter f ls).
+
+Lemma count_lab_app : forall f a b, count_lab f (a ++ b) = count_lab f a + count_lab f b.
+Proof. intros. unfold count_lab. rewrite filter_app, app_length. reflexivity. Qed.
+
+Lemma finish_rank : forall W cap early s c r s', step W cap early s (LFinish c r) = Some s' ->
+  rank (rs s c r) = 5 /\ rank (rs s' c r) = 6.
+Proof.
+  intros W cap early s c r s' H. remember (LFinish c r) as l eqn:El.
+  open_step H; try discriminate El. inversion El; subst. split_guards.
+  match goal with Hx : rs s c r = Running |- _ => rewrite Hx end. rewrite upd2_eq.
+  destruct (cstate_eqb (cst s c) CClosed); split; reflexivity.
+Qed.
+
+Lemma start_rank : forall W cap early s c r s', reachable W cap early s -> step W cap early s (LStart c r) = Some s' ->
+  rank (rs s c r) = 4 /\ rank (rs s' c r) = 5.
+Proof.
+  intros W cap early s c r s' Hr H. destruct (reachable_Safe W cap early s Hr) as [J1 J2 J2' J3 J4 J6 J7 J8 J9 J10].
+  remember (LStart c r) as l eqn:El.
+  open_step H; try discriminate El; inversion El; subst; split_guards; rewrite upd2_eq.
+  - match goal with Hx : rs s c r = Spawned |- _ => rewrite Hx end. split; reflexivity.
+  - subst. rewrite (J7 c r) by reflexivity. split; reflexivity.
+Qed.
+
+Lemma at_most_once_arith : forall nf ns k bf bs : nat, k <= 6 ->
+  nf <= 1 -> (nf = 1 -> k = 6) -> ns <= 1 -> (ns = 1 -> 5 <= k) ->
+  forall k', k <= k' -> k' <= 6 ->
+  (bf = 1 -> k = 5 /\ k' = 6) -> (bs = 1 -> k = 4 /\ k' = 5) -> bf <= 1 -> bs <= 1 -> bf + bs <= 1 ->
+  nf + bf <= 1 /\ (nf + bf = 1 -> k' = 6) /\ ns + bs <= 1 /\ (ns + bs = 1 -> 5 <= k').
+Proof. intros. lia. Qed.
+
+Theorem answered_at_most_once : forall W cap early ls s c r, run W cap early init ls = Some s ->
+  count_lab (is_finish c r) ls <= 1 /\ (count_lab (is_finish c r) ls = 1 -> rank (rs s c r) = 6) /\
+  count_lab (is_start c r) ls <= 1 /\ (count_lab (is_start c r) ls = 1 -> 5 <= rank (rs s c r)).
+Proof.
+  intros W cap early ls. induction ls as [|l ls IH] using rev_ind; intros s c r Hrun.
+  - cbn. repeat split; auto; intros; discriminate.
+  - rewrite run_app in Hrun. destruct (run W cap early init ls) as [s1|] eqn:E1; [|discriminate].
+    cbn in Hrun. destruct (step W cap early s1 l) as [s2|] eqn:E2; [|discriminate]. inversion Hrun. subst s2.
+    assert (Hr1 : reachable W cap early s1) by (exists ls; exact E1).
+    pose proof (step_rank_mono W cap early s1 l s Hr1 E2 c r) as Hm.
+    assert (Hle : rank (rs s c r) <= 6) by (destruct (rs s c r); cbn; lia).
+    assert (Hle1 : rank (rs s1 c r) <= 6) by (destruct (rs s1 c r); cbn; lia).
+    destruct (IH s1 c r eq_refl) as [F1 [F2 [S1 S2]]].
+    rewrite !count_lab_app.
+    assert (Bf : count_lab (is_finish c r) [l] = if is_finish c r l then 1 else 0)
+      by (unfold count_lab; cbn; destruct (is_finish c r l); reflexivity).
+    assert (Bs : count_lab (is_start c r) [l] = if is_start c r l then 1 else 0)
+      by (unfold count_lab; cbn; destruct (is_start c r l); reflexivity).
+    rewrite Bf, Bs.
+    apply (at_most_once_arith _ _ (rank (rs s1 c r))); auto.
+    + destruct (is_finish c r l) eqn:Ef; [|discriminate]. intros _.
+      destruct l; try discriminate. cbn in Ef. apply andb_true_iff in Ef. destruct Ef as [A B].
+      apply Nat.eqb_eq in A, B. subst. exact (finish_rank _ _ _ _ _ _ _ E2).
+    + destruct (is_start c r l) eqn:Es; [|discriminate]. intros _.
+      destruct l; try discriminate. cbn in Es. apply andb_true_iff in Es. destruct Es as [A B].
+      apply Nat.eqb_eq in A, B. subst. exact (start_rank _ _ _ _ _ _ _ Hr1 E2).
+    + destruct (is_finish c r l); auto.
+    + destruct (is_start c r l); auto.
+    + destruct l; cbn; auto; destruct ((c0 =? c) && (r0 =? r)); auto.
+Qed.
+
 (* ---------------------------------------------------------------------------------------------------------- *)
 (* The statements of Props/C12.v, with the run spelled out. *)
 
